@@ -300,6 +300,7 @@ struct Pool
             return true;
         }
         static const char* single[] = { "eb", "im", "emp", "era", "pop", "at", "get", "idx" };
+        (void)single;
         bool known = false;
         for (auto n : single)
             known = known || name == n;
@@ -494,6 +495,32 @@ struct Runner<Elem> : Pool<Elem>
         if (!p[i])
             return "raised";
         FV& v = *p[i];
+        if (name == "empa" || name == "pba" || name == "eba" || name == "ica")
+        {
+            // the argument is a reference to an element of the vector itself
+            std::size_t k = std::stoul(t[name == "empa" ? 3 : 2]);
+            if (k >= v.size() || v[k].v < 0)
+                return "raised"; // no such element: not called (the model does the same)
+            if (name == "empa")
+            {
+                std::size_t pos = std::stoul(t[2]);
+                if (pos > v.capacity())
+                    return "raised";
+                return guarded(fuel, [&] {
+                    v.emplace(v.begin() + pos, v[k]);
+                    return std::string("ok");
+                });
+            }
+            return guarded(fuel, [&] {
+                if (name == "pba")
+                    v.push_back(v[k]);
+                else if (name == "eba")
+                    v.emplace_back(v[k]);
+                else
+                    v.insert(static_cast<const Elem&>(v[k]));
+                return std::string("ok");
+            });
+        }
         if (name == "ic" || name == "pb")
         {
             Elem e(std::stoi(t[2]));
